@@ -156,7 +156,8 @@ int main(int argc, char **argv) {
                     " nodes, scalar pools, no trailing whitespace): all proper prefixes (code points and UTF-8 code units), D followed by "
                     "each of the 124 non-whitespace 7-bit units and 7 whitespace look-alikes (with and without a space), every closing bracket swapped or removed - all must "
                     "yield Undefined, and the document parsed next through the same caller-supplied stream gives what it gives alone; every string "
-                    "literal of the pools as a whole document: every proper prefix and six suffixes rejected; plus every string of <=" + std::to_string(nu) + " units over the C05 alphabet: an accepted text "
+                    "literal of the pools as a whole document: every proper prefix and six suffixes rejected; six documents with a high-surrogate "
+                    "escape that nothing follows, with their families; plus every string of <=" + std::to_string(nu) + " units over the C05 alphabet: an accepted text "
                     "must contain no Undefined node and re-parse from its own Stringify to the same tree; distinct = documents + "
                     "distinct accepted trees";
         plan.bounds = "nodes<=" + std::to_string(nodes) + " units<=" + std::to_string(nu);
@@ -216,6 +217,49 @@ int main(int argc, char **argv) {
                     Text padded = T(" ") + P.strings[i];
                     scalar_string<char>(padded, b.e8, ctx);
                     ledger_ok(ctx, langx::show(P.strings[i]));
+                }
+            };
+            plan.stages.push_back(st);
+        }
+        {
+            // documents with a high-surrogate escape that no low one follows (legal by the RFC grammar): the escape ends where its
+            // four digits end - it must not take the closing quote, a comma or a bracket with it
+            vx::Stage st;
+            st.name   = "lone-surrogates";
+            st.chunks = 1;
+            st.fn     = [](int64_t, vx::Ctx &ctx) {
+                static Bufs b;
+                struct {
+                    const char *doc;
+                    unsigned    size;
+                } docs[] = {{"[\"\\uD800\",\"abc\"]", 2}, {"{\"\\uD800\":1,\"b\":2}", 2}, {"[\"\\uD800abcd\",\"]\"]", 2}, {"[\"\\uDBFF\"]", 1},
+                            {"[\"x\\uD83D\",[],\"\\uD83D\"]", 3}, {"[\"\\uD800\\n\",1]", 2}};
+                for (auto &d : docs) {
+                    if (!ctx.next()) {
+                        continue;
+                    }
+                    const Text t = T(d.doc);
+                    if (ctx.want_desc()) {
+                        ctx.describe(langx::show(t));
+                    }
+                    ctx.acc.count("states");
+                    ctx.acc.count("distinct");
+                    {
+                        const char *p = b.e8.put(to_units<char>(t));
+                        Value<char> v = JSON::Parse(p, SizeT(t.size()));
+                        ctx.acc.count("evals");
+                        if (v.IsUndefined() || v.Size() != d.size) {
+                            ctx.fail("char document " + langx::show(t), v.IsUndefined() ? std::string("rejected") : "parsed to " + std::to_string(v.Size()) + " items/members, it has " + std::to_string(d.size));
+                        }
+                    }
+                    std::vector<size_t> closers;
+                    for (size_t i = 0; i < t.size(); i++) {
+                        if ((t[i] == ']' || t[i] == '}') && (i + 1 == t.size())) {
+                            closers.push_back(i);
+                        }
+                    }
+                    family(t, closers, b, ctx);
+                    ledger_ok(ctx, langx::show(t));
                 }
             };
             plan.stages.push_back(st);
